@@ -7,7 +7,8 @@ import sys
 from . import runner
 from .props import get_prop
 
-DEFAULT_PROPS = ["C01", "C02", "C04", "C05", "C06", "C09", "C12", "C13", "C14", "C19"]
+DEFAULT_PROPS = ["C01", "C02", "C03", "C04", "C05", "C06", "C07", "C08", "C09", "C10", "C11", "C12", "C13", "C14", "C15",
+                 "C19", "C20"]
 
 
 def _task(args):
@@ -15,11 +16,20 @@ def _task(args):
     prop = get_prop(prop_id)
     root = runner._fresh_dir("run")
     rs = runner.run_seed(seed, prop_id, tier, index)
+    from . import engine as _engine
+    _engine.NEXT_REPO_DIR = _engine.REPO_DIRS[(rs >> 17) % len(_engine.REPO_DIRS)]
     res = prop.run_generated(random.Random(rs), root, tier, index, full_digests=True)
     import shutil
     shutil.rmtree(root, ignore_errors=True)
-    return {"prop": prop_id, "index": index, "events": res.get("event_log"), "viol": bool(res.get("violation")),
-            "ops": len(res["trace"].get("ops", []))}
+    # the concrete trace (ops with contents, fault, recorded schedules of the controller) and the verdict are part of
+    # what must repeat, not only the per-op state digests
+    import hashlib
+    tr = {k: v for k, v in res["trace"].items() if k not in ("violation",)}
+    td = hashlib.sha256(json.dumps(tr, sort_keys=True, default=str).encode()).hexdigest()[:16]
+    v = res.get("violation") or {}
+    return {"prop": prop_id, "index": index, "events": (res.get("event_log") or []) + [["trace", td], ["verdict", v.get("monitor"), v.get("class")],
+                                                                                       ["probes", sorted((res.get("probes") or {}).items())]],
+            "viol": bool(res.get("violation")), "ops": len(res["trace"].get("ops", []))}
 
 
 def run_batch(props, n, workers):
